@@ -18,7 +18,7 @@ build_demo() {
   if [ -f $O/demo.cpp ]; then
     # the demo's header comment gives its build line (some demos compile daemon / relay sources of the tree in)
     # optional per-seed files: demo.buildenv (shell assignments the build line refers to), demo.args (arguments of the demo)
-    bash -c "$(cat $O/demo.buildenv 2>/dev/null); $(/verif/tools/demo_build_cmd.py $O/demo.cpp /tmp/seed_${ID}_demo)" 2>/tmp/seed_${ID}_demo_build.log || { echo "demo build failed"; tail -5 /tmp/seed_${ID}_demo_build.log; return 98; }
+    bash -c "true $(cat $O/demo.buildenv 2>/dev/null | sed 's/^/; /'); $(/verif/tools/demo_build_cmd.py $O/demo.cpp /tmp/seed_${ID}_demo)" 2>/tmp/seed_${ID}_demo_build.log || { echo "demo build failed"; tail -5 /tmp/seed_${ID}_demo_build.log; return 98; }
     # exit 0 = property held, 1 = violated; anything else is the demo's own trouble (fixed ports clash with other jobs): retry
     for try in 1 2 3; do timeout 600 /tmp/seed_${ID}_demo $(cat $O/demo.args 2>/dev/null) >/tmp/seed_${ID}_demo.out 2>&1; rc=$?; [ $rc -le 1 ] && break; sleep 7; done; return $rc
   elif [ -f $O/demo.sh ]; then
